@@ -1,6 +1,6 @@
 use crate::runtime::list::get_access_addr;
 use crate::runtime::utilities::{next_ref, push_unit};
-use garnish_lang_traits::{GarnishData, GarnishDataType, Instruction, RuntimeError};
+use garnish_lang_traits::{ErrorType, GarnishData, GarnishDataType, Instruction, RuntimeError};
 
 pub fn access<Data: GarnishData>(this: &mut Data) -> Result<Option<Data::Size>, RuntimeError<Data::Error>> {
     let right_addr = next_ref(this)?;
@@ -15,22 +15,25 @@ pub fn access<Data: GarnishData>(this: &mut Data) -> Result<Option<Data::Size>, 
         | (GarnishDataType::Number, GarnishDataType::SymbolList)
         | (GarnishDataType::Symbol, GarnishDataType::Number)
         | (GarnishDataType::Number, GarnishDataType::Symbol) => this.merge_to_symbol_list(left_addr, right_addr).and_then(|i| this.push_register(i))?,
-        (GarnishDataType::Pair, GarnishDataType::Number)
-        | (GarnishDataType::Pair, GarnishDataType::Symbol)
-        | (GarnishDataType::List, GarnishDataType::Number)
-        | (GarnishDataType::List, GarnishDataType::Symbol)
-        | (GarnishDataType::CharList, GarnishDataType::Number)
-        | (GarnishDataType::CharList, GarnishDataType::Symbol)
-        | (GarnishDataType::ByteList, GarnishDataType::Number)
-        | (GarnishDataType::ByteList, GarnishDataType::Symbol)
-        | (GarnishDataType::Range, GarnishDataType::Number)
-        | (GarnishDataType::Range, GarnishDataType::Symbol)
-        | (GarnishDataType::Concatenation, GarnishDataType::Number)
-        | (GarnishDataType::Concatenation, GarnishDataType::Symbol)
-        | (GarnishDataType::Slice, GarnishDataType::Number)
-        | (GarnishDataType::Slice, GarnishDataType::Symbol) => match get_access_addr(this, right_addr, left_addr)? {
-            None => push_unit(this)?,
-            Some(i) => this.push_register(i)?,
+        (
+            l @ (GarnishDataType::Pair
+            | GarnishDataType::List
+            | GarnishDataType::CharList
+            | GarnishDataType::ByteList
+            | GarnishDataType::Range
+            | GarnishDataType::Concatenation
+            | GarnishDataType::Slice),
+            r @ (GarnishDataType::Number | GarnishDataType::Symbol),
+        ) => match get_access_addr(this, right_addr.clone(), left_addr.clone()) {
+            Ok(None) => push_unit(this)?,
+            Ok(Some(i)) => this.push_register(i)?,
+            // the value has no such lookup (e.g. a symbol on a char list): an undefined combination like any other
+            Err(e) if e.get_type() == ErrorType::UnsupportedOpTypes => {
+                if !this.defer_op(Instruction::Access, (l, left_addr), (r, right_addr))? {
+                    push_unit(this)?
+                }
+            }
+            Err(e) => Err(e)?,
         },
         (l, r) => {
             if !this.defer_op(Instruction::Access, (l, left_addr), (r, right_addr))? {
